@@ -7,34 +7,34 @@ ALL = ["C%02d" % i for i in range(1, 21)]
 # id -> (level, technique, level text, level note, design ref)
 CHECKS = {
  "C01": ("exploration", "deviation-bounded exhaustive exploration of network delivery orders, checkpoint-tick positions and worker-kill points in a cluster simulation of the real Job, Operators and SourceRunners (components run the default schedule under the cooperative scheduler); exactly-once oracle inside the handler and on the state read back from the DKV checkpoints",
-         "scenarios of 1-2 splits / 5-10 records over colliding keys, 1-2 workers, read size, batch size, tick positions and acknowledgement order enumerated; every run with at most one deviation (thorough: two) among: a queued RPC delivered out of order, one worker killed at any network event, all workers killed at once; after a kill fresh workers register and the job redeploys from its latest completed checkpoint; no record applied twice, none lost, final state = failure-free fold",
+         "scenarios of 1-2 splits / 5-10 records over colliding keys, 1-2 workers, read size, batch size, tick positions and acknowledgement order enumerated; every run with at most one deviation (thorough: two) among: a queued RPC delivered out of order, one worker killed at any network event, all workers killed at once; after a kill fresh workers register and the job redeploys from its latest completed checkpoint; no record applied twice, none lost, final state = failure-free fold; a focused part queues the job's snapshot file writes as events (completing last by default) with one more deviation, so that kills and redeployments fall between the last acknowledgement and the publication of a checkpoint",
          "interleavings inside components are not re-explored here; a known finding (a surviving worker that is redeployed) masks the runs in which one of two workers survives", "DESIGN.md §5 C01"),
  "C02": ("exploration", "delay-bounded exhaustive schedule exploration of a real Operator under a cooperative scheduler (testing/synctest bubble), scripts enumerated, cut oracle evaluated at every OperatorCheckpointComplete",
-         "two (thorough: also three) sender threads playing enumerated scripts of events / watermarks / barriers for one or two consecutive checkpoints against a real Operator with a slow handler; every schedule within 1 delay for all scripts and 2 delays for a focused script set (thorough: 2 and 3): the events applied at the report of checkpoint N are exactly the pre-barrier events, no timer fires on post-barrier watermarks only, the reported DKV checkpoint restores to exactly the cut, no deadlock",
+         "two (thorough: also three) sender threads playing enumerated scripts of events / watermarks / barriers for one or two consecutive checkpoints (and, with the laggard before each barrier enumerated, three - thorough four - checkpoints) against a real Operator with a slow handler; every schedule within 1 delay for all scripts and 2 delays for a focused script set (thorough: 2 and 3): the events applied at the report of checkpoint N are exactly the pre-barrier events, no timer fires on post-barrier watermarks only, the reported DKV checkpoint restores to exactly the cut, no deadlock",
          "scheduling points at synchronisation operations; delay bound; large memtable (no background flush in this harness)", "DESIGN.md §5 C02"),
- "C03": ("exploration", "bounded exhaustive mutation-sequence enumeration on the real KeyedStateStore over a real dkv.DB (background work held or quiescent as an enumerated action) vs a shadow map",
-         "every sequence of put/delete mutations up to depth 4-5 over prefix-related subject keys, namespaces and entry keys incl. empty ones, tiny DKV thresholds; GetState of every subject key after every mutation equals the shadow map[subject][namespace][entry]; no foreign, duplicated or resurrected entries",
-         "store tier only so far (the operator path with batching is added with the scheduler-driven operator harness); namespaces < 256 bytes", "DESIGN.md §5 C03"),
+ "C03": ("exploration", "bounded exhaustive mutation-sequence enumeration on the real KeyedStateStore over a real dkv.DB (background work held or quiescent as an enumerated action) vs a shadow map, plus exhaustive script enumeration against a real Operator (batching, checkpoint, redeploy from the checkpoint) with a handler that compares the state it is supplied with a shadow of its own mutations",
+         "every sequence of put/delete mutations up to depth 4-5 over prefix-related subject keys, namespaces and entry keys incl. empty ones, tiny DKV thresholds; GetState of every subject key after every mutation equals the shadow map[subject][namespace][entry]; no foreign, duplicated or resurrected entries; operator tier: every script up to depth 4-5 over events whose handler result puts/deletes colliding entries of keys a/ab, batch time-out, checkpoint+redeploy, batch sizes 1-3",
+         "operator tier runs the default schedule (interleavings are C02's subject); namespaces < 256 bytes", "DESIGN.md §5 C03"),
  "C04": ("exploration", "delay-bounded exhaustive schedule exploration of a real SourceRunner (reader loop, ReorderFetcher, per-operator batching, timers on virtual time) under a cooperative scheduler; stream oracle with the harness's own hash",
          "scenarios of 1-2 splits / 3-5 records x read size x operator count x batch size x time-out x barrier position, every schedule within 1 delay (all configurations) and 2 delays (focused configurations); thorough one more each: every keyed event exactly once at the owning operator, same-split same-key order, consistent cuts by barriers and watermarks, completeness after 450 ms of virtual time",
          "scheduling points at synchronisation operations; runs judged after a virtual-time horizon because end of input does not end the run in this code base", "DESIGN.md §5 C04"),
  "C05": ("exploration", "exhaustive enumeration of configurations (key-group counts x operator counts) and of a stated key set on the real KeySpace / OperatorPartition / KeyedStateStore / TimerStore vs an independent MurmurHash3-32 reference",
-         "every g<=256 x every n<=g+3 (thorough: g<=2048 x 16 characteristic n and 160 large g up to 65535): ranges contiguous, disjoint, covering, balanced; RangeIndex and partition ownership agree with the range table; KeyGroup = reference murmur3 mod g for every key of length <=2 and 29k longer keys; persisted prefixes of state and timer entries equal it",
+         "every g<=256 x every n<=g+3 (thorough: g<=2048 x 16 characteristic n and 160 large g up to 65535): ranges contiguous, disjoint, covering, balanced; RangeIndex and partition ownership agree with the range table; KeyGroup = reference murmur3 mod g for every key of length <=2 and 29k longer keys; persisted prefixes of state and timer entries equal it; the source runner's real router delivers one key per key group to the owning operator for g in {1..40,255,256,257,1000} x n<=9",
          "'every key' and 'every g with every n' are bounded as stated; reference anchored by published test vectors", "DESIGN.md §5 C05"),
- "C06": ("exploration", "exhaustive enumeration of configurations and orders on the real AssignRanges vs range intersection",
-         "(a) every g<=9 (thorough 12), M,N<=g+2 and every recorded order of the old checkpoints (all permutations for M<=5): each new operator is handed exactly the old checkpoints whose range intersects its own. (b) end-to-end restore through real operators is being added",
-         "assignment tier only so far", "DESIGN.md §5 C06"),
- "C07": ("exploration", "bounded exhaustive history enumeration on the real dkv.DB (background flush/compaction held or quiescent as an enumerated action) vs a map",
-         "every put/delete history up to depth 5-6 over colliding keys under ten tiny option sets; background work completed or held back at every step; Get of every key and ScanPrefix of every prefix after every write, compared with a map",
-         "single writer; background interleavings finer than hold/release are the schedule tier's subject (not yet built); MemoryFilesystem", "DESIGN.md §5 C07"),
+ "C06": ("exploration", "exhaustive enumeration of configurations and orders on the real AssignRanges vs range intersection; bounded exhaustive history enumeration through real dkv databases, KeyedStateStores and TimerStores rescaled with the real AssignRanges and OperatorPartition",
+         "(a) every g<=9 (thorough 12), M,N<=g+2 and every recorded order of the old checkpoints (all permutations for M<=5): each new operator is handed exactly the old checkpoints whose range intersects its own. (b) every history up to depth 3-4 of state puts/deletes, timer set/fire on M old operators (tiny memtables), checkpoint, restore into N operators in every recorded order, an update after the restore, flush and compaction: owners see exactly the shadow state, drained timers are exactly the unfired ones of the operator's key groups; a second part rescales twice",
+         "operator counts up to 4 and 4 key groups in the end-to-end tier; what a non-owner would read for a foreign key is not judged (never asked)", "DESIGN.md §5 C06"),
+ "C07": ("exploration", "bounded exhaustive history enumeration on the real dkv.DB (background flush/compaction held, quiescent, or with the creation of one table file held back, as enumerated actions) vs a map; delay-bounded schedule exploration of designated histories under the cooperative scheduler",
+         "every put/delete history up to depth 5-6 over colliding keys under ten tiny option sets; background work completed or held back at every step; Get of every key and ScanPrefix of every prefix after every write, compared with a map; values incl. empty ones; one-table-held tier: the n-th table file creation held back so that a flush lands inside a compaction step; schedule tier: four colliding histories, every schedule within 1-2 delays",
+         "single writer; MemoryFilesystem", "DESIGN.md §5 C07"),
  "C18": ("model_checking", "explicit-state breadth-first search over level layouts produced by the real LevelList/Compactor, states cloned and canonicalised, invariants on every transition",
-         "all level layouts reachable within the stated depth by flushes, Compact begin and Compact apply (flushes landing in between) under fourteen compactor settings; contents (Get/ScanPrefix) equal the reference after every step, sorted levels disjoint, no newer version beneath an older one, compaction reaches a fixed point from every state",
+         "all level layouts reachable within the stated depth by flushes, Compact begin and Compact apply (flushes landing in between) under fourteen compactor settings; contents (Get/ScanPrefix) equal the reference after every step, sorted levels disjoint, no newer version beneath an older one, compaction reaches a fixed point from every state; on a real dkv.DB the creation of the n-th table file is held back so that a flush lands inside a compaction step",
          "depth-bounded; three keys, seven flush images, at most three level-0 tables; sequence numbers rank-normalised in the state key", "DESIGN.md §5 C18"),
  "C08": ("fault_enumeration", "bounded exhaustive history enumeration on the real dkv.DB x every crash point (snapshot of the file set after every mutating storage operation), restore of every retained handle on every snapshot vs the map captured at the Checkpoint call",
-         "every history up to depth 5-6 over put/delete/Checkpoint/retention update/restore (same or new directory)/hold+release of background work; after every storage operation following the return of a handle, a fresh dkv.Open on a copy of the files must reproduce the captured map, not panic and accept new writes",
+         "every history up to depth 5-6 over put/delete/Checkpoint/retention update/restore (same or new directory)/hold+release of background work; after every storage operation following the return of a handle, a fresh dkv.Open on a copy of the files must reproduce the captured map, not panic and accept new writes; background work optionally held from the start; every history ends with a quiescent final checkpoint probed the same way",
          "no torn writes (a completed storage operation is durable, an incomplete one invisible); GC-driven deletions are C09's subject; flush/compaction interleavings inside the quiescence wait are left to the Go scheduler in this tier", "DESIGN.md §5 C08"),
  "C09": ("exploration", "bounded exhaustive history enumeration on real dkv.DB instances with garbage collection as an explicit enumerated action (runtime.GC + cleanup barrier), file-existence oracle over retained checkpoint documents plus reads of the live level set",
-         "single database: every history up to depth 5-6 over write burst / Checkpoint / retention update / reopen in the same process (old object dropped or kept, same or new directory) / forced GC; neighbours: rescale 1->N with the real OperatorPartition policy, simulated operator processes (own file names), every combination of neighbour answers (truthful / error / hang) and every order of bursts, job checkpoints, retention notifications and GC up to depth 4-6",
+         "single database: every history up to depth 5-6 over write burst / Checkpoint / retention update / reopen in the same process (old object dropped or kept, same or new directory) / forced GC; neighbours: rescale 1->N with the real OperatorPartition policy, simulated operator processes (own file names), every combination of neighbour answers (truthful / error / hang) and every order of bursts, job checkpoints (also ones that never complete job-wide), retention notifications and GC up to depth 4-6, with focused parts for an operator redeployed twice in one process and for a pending job checkpoint; the ownership guard ExclusivelyOwnsTable itself under the cooperative scheduler with 1-3 neighbours x six behaviours x every interleaving within 3-6 delays",
          "GC completeness depends on the collector finding the garbage (deletions that are reported are real); simulated processes share one Go heap; MemoryFilesystem", "DESIGN.md §5 C09"),
  "C10": ("exploration", "bounded exhaustive operation-sequence enumeration with state-key pruning on the real TimerRegistry/TimerStore over a real dkv.DB vs a set of pending timers",
          "every sequence up to depth 5-7 over SetTimer / AdvanceWatermark / checkpoint+restore with 1-2 upstreams and per-key-group cache capacities of 0,1,2,3,unlimited timers; each advance must deliver exactly the pending timers at or below the minimum upstream watermark, once, in order; final drain",
@@ -46,25 +46,25 @@ CHECKS = {
          "concurrent acknowledgements / duplicate / racing CreateCheckpoint on separate threads against the real Store (every schedule within 3-4 delays); all states of the real Store reachable within 14-24 events over CreateCheckpoint / CreateSavepoint / operator and source-runner acknowledgements (right, late, early ids; foreign senders; duplicates) / restart, for assemblies (1,1), (2,1), (2,2); in-memory state, CurrentCheckpoint, decoded snapshot files, savepoint files and retained notifications equal the model after every event",
          "publication goroutines awaited after every event (their interleavings and crash points are C13's subject); in-memory storage location", "DESIGN.md §5 C12"),
  "C13": ("fault_enumeration", "crash-point enumeration (file set after every storage operation, restart on a copy) over id ranges + delay-bounded exhaustive schedule exploration of overlapping publication goroutines of the real Store",
-         "2-4 consecutive checkpoints from 95 start ids (0..70, around 2^6, 2^12, 2^16, 2^32), in memory and on the real LocalDirectory: after every storage operation a new Store loads the highest completely written checkpoint; three checkpoints created back to back with their publication goroutines interleaved in every way within 4-5 delays: Remove never targets the newest published checkpoint, retained notifications and CurrentCheckpoint never go back",
+         "2-4 consecutive checkpoints from 95 start ids (0..70, around 2^6, 2^12, 2^16, 2^32), in memory and on the real LocalDirectory: after every storage operation a new Store loads the highest completely written checkpoint; every set of one to three completed snapshot files over a 53-id universe loads its highest id; three checkpoints created back to back with their publication goroutines interleaved in every way within 3-5 delays (also with one of them started by CreateSavepoint): Remove never targets the newest published checkpoint, retained notifications and CurrentCheckpoint never go back",
          "storage operations are atomic; scheduling points at synchronisation operations", "DESIGN.md §5 C13"),
  "C14": ("exploration", "exhaustive enumeration of savepoint request points, tick relations, worker counts and acknowledgement orders plus deviation-bounded delivery orders in a cluster simulation of the real Job, Operators and SourceRunners with one storage namespace; wipe-and-restore from the savepoint URI",
-         "W in {1,2} workers, savepoint requested after 0/1/2/4/7 delivered event batches with the periodic tick absent / completed before / pending (fold), operator acknowledgements in either order, at most one (thorough: two) out-of-order RPC deliveries; then all working storage is deleted and a new job with W' in {1,2} fresh workers starts from the savepoint URI: one StartCheckpoint round per checkpoint id, the original job finishes undisturbed, the restored job never applies a record twice nor misses one and ends with the failure-free state",
+         "W in {1,2} workers, savepoint requested after 0/1/2/4/7 delivered event batches with the periodic tick absent / completed before / pending (fold), operator acknowledgements in either order, at most one (thorough: two) out-of-order RPC deliveries; then all working storage is deleted and a new job with W' in {1,2} fresh workers starts from the savepoint URI: one StartCheckpoint round per checkpoint id, the original job finishes undisturbed, the restored job never applies a record twice nor misses one and ends with the failure-free state; savepoint-chain part: tiny memtables (table files in the savepoints), the restored job takes a savepoint of its own (at once or after its input), another wipe, a third job",
          "in-memory storage namespace; component-internal interleavings not re-explored", "DESIGN.md §5 C14"),
  "C15": ("model_checking", "explicit-state search (choice-sequence DFS with canonical state-key pruning) over the real jobs.Job with scripted nodes under the cooperative scheduler (run to quiescence after every event), invariants on every call the job makes, bounded-liveness suffix from every state",
-         "all job states reachable within 5-7 events over register / deregister / heartbeat / clock jump / checkpoint tick / acknowledgement / failing Deploy, WorkerCount 1 and 2 with one standby node of each kind: calls only reach registered live nodes, deploys name exactly WorkerCount nodes, no call reaches an assembly after the job noticed a lost member, redeploys carry the latest completed checkpoint; from every state 'register all, tick, acknowledge' completes a checkpoint with a larger id",
+         "all job states reachable within 5-7 events over register / deregister / heartbeat / clock jump / checkpoint tick / acknowledgement / failing Deploy / slow deployments (Deploy calls stay in flight until released), WorkerCount 1 and 2 (the latter from an assembled cluster) with one standby node of each kind: calls only reach registered live nodes, deploys name exactly WorkerCount nodes, no call reaches an assembly after the job noticed a lost member, redeploys carry the latest completed checkpoint; from every state 'register all, tick, acknowledge' completes a checkpoint with a larger id",
          "scripted nodes (real workers: cluster parts, being added); a node counts as lost once it deregistered or its heartbeat had expired when the job evaluated its registry", "DESIGN.md §5 C15"),
  "C16": ("exploration", "delay-bounded exhaustive schedule exploration of a real SourceRunner (reported split positions vs the barrier cut) + exhaustive enumeration of splitter configurations and kinesis shard histories against the real splitters",
-         "source runner: as C04 with a barrier racing the reads: reported positions put every record emitted before the barrier below and every later record at or above them; embedded/httpapi splitters for every split count <=5 x runner count <=4; real kinesis SourceSplitter against the repository's kinesis fake (in-process transport, discovery ticker on virtual time): every history up to depth 6-7 over split / merge / discovery tick / reader finishes shard / checkpoint+restore: a shard handed out once per incarnation, never before its parents finished, with its checkpointed cursor, restore neither panics nor forgets",
+         "source runner: as C04 with a barrier racing the reads: reported positions put every record emitted before the barrier below and every later record at or above them; embedded/httpapi splitters for every split count <=5 x runner count <=4; real kinesis SourceSplitter against the repository's kinesis fake (in-process transport, discovery ticker on virtual time): every history up to depth 6-7 over split / merge / discovery tick / reader finishes shard / checkpoint+restore, then readers finish every closed shard until nothing changes (every shard handed out): a shard handed out once per incarnation, never before its parents finished, with its checkpointed cursor, restore neither panics nor forgets",
          "records without keyed events are invisible to the cut oracle; kinesis shard expiry not modelled", "DESIGN.md §5 C16"),
  "C17": ("exploration", "bounded exhaustive input/history enumeration on the real SST and WAL code vs reference lists",
          "every run of 0..50 entries from a 56-key universe (binary, empty, prefix-related keys; tombstone masks exhaustive up to 8 entries), whole and split at every target size, every lookup key / prefix, descriptor JSON round trip; every WAL history over put/delete/cut/truncate/rotate+save up to depth 6-7 with every legal start marker",
          "bounded sizes and alphabet; MemoryFilesystem stands for all file systems", "DESIGN.md §5 C17"),
  "C19": ("exploration", "bounded exhaustive operation-sequence enumeration on the real structures vs sorted-slice reference models",
-         "every operation sequence up to depth 4-9 per structure over a colliding key alphabet, zip-tree ranks enumerated, against sorted-slice reference models; exhaustive within the bound",
+         "every operation sequence up to depth 4-9 per structure over a colliding key alphabet, zip-tree ranks enumerated, against sorted-slice reference models (partitioned queue also with 4-5 partitions; the lazily sorted map with observation as an operation of its own); exhaustive within the bound",
          "bounded depth and alphabet; comparison functions assumed total orders; Go runtime trusted", "DESIGN.md §5 C19"),
  "C20": ("exploration", "bounded exhaustive sequence enumeration (event batcher) + delay-bounded exhaustive schedule exploration of the real ReorderFetcher under a cooperative scheduler on virtual time",
-         "event batcher: every sequence up to depth 9-11 over Add/IsFull/Flush(current)/timer expiry/Flush(issued tokens) for MaxSize 1-3, with and without time-out; reorder fetcher: producer, fetches of arbitrary latency, time-out flusher and consumer threads, every schedule within 2-3 delays for 3-4 items, producer pauses enumerated: one result per input, in order, no deadlock",
+         "event batcher: every sequence up to depth 9-11 over Add/IsFull/Flush(current)/timer expiry/Flush(issued tokens) for MaxSize 1-3, with and without time-out, timer expiry and the run of its callback as separate events; reorder fetcher: producer, fetches of arbitrary latency, time-out flusher and consumer threads, every schedule within 2-3 delays for 3-4 items, producer pauses and one failing / empty fetch enumerated: one result per input of every successful fetch, in order, errors reported, no deadlock",
          "scheduling points at synchronisation operations only (sequentially consistent; unsynchronised accesses are not interleaved); delay bound", "DESIGN.md §5 C20"),
 }
 
